@@ -50,8 +50,13 @@ COMPONENTS = {"real": ["_dilation.subchannel/inbound/outbound/manager/"
               "stub": ["mailbox (FIFO control channel)", "Noise (own)",
                        "kernel TCP"]}
 
-POOL = ("p1", "p2", "p3")
-EXPECTED = (None, None, (), ("p1",), ("p1", "p2"), ("p1", "p2", "p3"))
+# subprotocol names of one run: plain ones, or names that differ only in
+# Unicode normalisation form / case / surrounding blanks (distinct names, which
+# must neither be conflated nor rewritten on the way), or long ones
+POOLS = (("p1", "p2", "p3"), ("p1", "p2", "p3"), ("p1", "p2", "p3"),
+         ("cafe\u0301", "caf\u00e9", "\u212bngstr\u00f6m"),
+         ("P1", "p1", " p1"), ("\u1112\u1161\u11ab", "\ud55c", "x" * 300))
+EXPECTED = (None, None, (), (0,), (0, 1), (0, 1, 2))
 
 
 @implementer(IHalfCloseableProtocol)
@@ -81,7 +86,10 @@ def configs(tier):
 
 
 def run_one(seed, tape, opts):
+    POOL = tape.pick(POOLS, "pool")
     exp = {"A": tape.pick(EXPECTED, "expA"), "B": tape.pick(EXPECTED, "expB")}
+    exp = {k: (None if v is None else tuple(POOL[i] for i in v))
+           for k, v in exp.items()}
     half = bool(opts.get("half"))
     staged = bool(opts.get("staged"))
     pausing = not half and tape.choose(2, "pausing") == 0
